@@ -163,13 +163,16 @@ def run(ctx, n=None, module_gate_only=False):
                 break
             tree = gen_tree(rng, rng.choice([2, 3, 4]))
         directed_pkgs = None
-        if not module_gate_only and idx < 6:
+        if not module_gate_only and idx < 9:
             # directed: packages whose directory names are character-wise prefixes of each other, named with -s in
             # every order
             leaf = lambda: {"files": ["__init__.py", "tests.py", "test_a.py"], "subs": []}  # noqa: E731
             tree = {"files": ["tests.py"], "subs": [["pkg", leaf()], ["pkgx", leaf()], ["sub", {"files": ["tests.py"], "subs": [["sub2", leaf()], ["sub", leaf()]]}]]}
             directed_pkgs = [[("pkg",), ("pkgx",)], [("pkgx",), ("pkg",)], [("sub",), ("sub", "sub2"), ("sub", "sub")],
-                             [("sub", "sub"), ("sub",)], [("pkg",), ("pkg",), ("pkgx",)], [("sub", "sub2"), ("pkgx",), ("pkg",)]][idx]
+                             [("sub", "sub"), ("sub",)], [("pkg",), ("pkg",), ("pkgx",)], [("sub", "sub2"), ("pkgx",), ("pkg",)],
+                             # packages that can be imported but lie outside every search path (an installed copy, the
+                             # standard library): nothing of the tree is "inside --package"
+                             [("json",)], [("email", "mime"), ("pkg",)], [("xml", "dom"), ("json",)]][idx]
         d = os.path.join(ctx.tmp, "disc%05d" % idx)
         materialize(tree, d, rng if directed_pkgs is None else random_no_links())
         dirs = [p for p in all_dirs(tree)]
